@@ -31,7 +31,22 @@ class Sentinel(object):
 
 PADS = {"0.": 0., "None": None, "str": "pad", "tuple": ("p", 1), "sentinel": Sentinel(), "list": ["mutable", "pad"]}
 ROUTES = ["func-list", "func-gen", "func-stream", "method", "func-hopdefault",
-          "method-hopdefault", "func-positional"]
+          "method-hopdefault", "func-positional", "func-getitem-seq", "func-deque-late", "func-list-late"]
+
+
+class OldSeq(object):
+  """A sequence of the old protocol: __len__ and __getitem__ only (as ctypes arrays, many C extension
+  buffers and user classes are) - iterable by ``for``, without __iter__."""
+  def __init__(self, data):
+    self._d = list(data)
+  def __repr__(self):
+    return "OldSeq(%r)" % (self._d,)
+  def __len__(self):
+    return len(self._d)
+  def __getitem__(self, i):
+    if not isinstance(i, int):
+      raise TypeError("index")
+    return self._d[i]
 
 
 def bounds(run):
@@ -96,6 +111,19 @@ def gen_blocks(run):
           yield (route, n, size, hop, "tuple", "int")
 
 
+class _Raised(object):
+  def __init__(self, exc):
+    self.name, self.msg = type(exc).__name__, str(exc)[:200]
+
+
+def _guard(it):
+  try:
+    for b in it:
+      yield b
+  except Exception as exc:
+    yield _Raised(exc)
+
+
 def run_blocks(case):
   route, n, size, hop, padk, ik = case
   if hop == "inf":
@@ -121,6 +149,14 @@ def run_blocks(case):
     it = Stream(iter(L)).blocks(size=size, padval=pad)
   elif route == "func-positional":
     it = blocks(L, size, hop, pad)
+  elif route == "func-getitem-seq":
+    it = blocks(OldSeq(L), size=size, hop=hop, padval=pad)
+  elif route in ("func-deque-late", "func-list-late"):
+    # "at the moment it is produced": the call itself looks at nothing - a buffer filled between the call
+    # and the first block (a FIFO between producer and consumer) is blocked with what it holds by then
+    buf = deque(L[:n // 2]) if route == "func-deque-late" else list(L[:n // 2])
+    it = blocks(buf, size=size, hop=hop, padval=pad)
+    buf.extend(L[n // 2:])
   else:
     raise ValueError(route)
   if route.startswith("method") and not isinstance(it, Stream):
@@ -134,7 +170,10 @@ def run_blocks(case):
     from ..sources import CountingSource
     counted = CountingSource(list(L), name="blocks-source")
     it = blocks(counted, size=size, hop=hop, padval=pad)
+  it = _guard(it)
   for b in it:
+    if isinstance(b, _Raised):
+      return bad("blocks:exception:" + b.name, "producing the blocks raised", exp, b.msg, len(exp) > 0, (len(exp), False))
     got.append(list(b))          # snapshot: the deque is reused by design
     if counted is not None and not counted.ended:
       k = len(got) - 1
@@ -167,7 +206,7 @@ def gen_zero_pad(run):
       for right in range(mlr + 1):
         for zk in PADS:
           for ik in ("int", "mixed"):
-            for route in ("kw", "pos", "default-zero", "gen"):
+            for route in ("kw", "pos", "default-zero", "gen", "getitem-seq", "deque-late"):
               yield (route, n, left, right, zk, ik)
   for which in ("left", "right", "both"):
     for hk in HUGE:
@@ -210,6 +249,12 @@ def run_zero_pad(case):
     it = zero_pad(L, left, right, zero)
   elif route == "gen":
     it = zero_pad((x for x in L), left, right, zero=zero)
+  elif route == "getitem-seq":
+    it = zero_pad(OldSeq(L), left, right, zero=zero)
+  elif route == "deque-late":
+    buf = deque(L[:n // 2])
+    it = zero_pad(buf, left=left, right=right, zero=zero)
+    buf.extend(L[n // 2:])
   else:
     zero = 0.
     it = zero_pad(L, left=left, right=right)
@@ -225,7 +270,10 @@ def run_zero_pad(case):
       return bad("zero_pad:abandoned", "abandoning a zero_pad view after k items must leave the source generator with "
                  "its remaining items", {"head": [zero] * left + L[:1], "rest": L[1:]}, {"head": head, "rest": rest}, True,
                  (left > 0, right > 0, n > 0))
-  got = list(it)
+  try:
+    got = list(it)
+  except Exception as exc:
+    return bad("zero_pad:exception:" + type(exc).__name__, "zero_pad raised", None, str(exc)[:200], True, (left > 0, right > 0, n > 0))
   exp = [zero] * left + L + [zero] * right
   ok = len(got) == len(exp) and all(
       type(a) is type(b) and a == b for a, b in zip(got, exp))
